@@ -49,6 +49,9 @@ def runOp (op : String) (variant : List String) (ints : List Nat) (xs : Array α
   let i2 := ints.getD 2 0
   let v2 := variant.getD 2 ""
   let go {β} (r : Rd α β) : β := (r.run (xs, 0)).1
+  -- variant token `acc` on deduce / deduce_with / deduce2 / inverse / abduce / abduce_with / merge: the harness appends whether
+  -- the crate's own checked constructor accepts the returned value(s); the model's answer is "yes"
+  let accT : List Bool := if variant.contains "acc" then [true] else []
   match op with
   | "simplex_new" => go do
       let s ← rdSimplex i0
@@ -136,34 +139,36 @@ def runOp (op : String) (variant : List String) (ints : List Nat) (xs : Array α
   | "deduce" => go do
       let w ← rdOpinion i0
       let c ← rdCond i0 i1
+      -- variant token `acc` (repair 9ec2d8b): one more flag -- the result is accepted by `Opinion::try_new` (expected: always)
       match deduce w c with
-      | some r => return .ok r.flat (if variant.contains "shared" then [true] else [])
+      | some r => return .ok r.flat ((if variant.contains "shared" then [true] else []) ++ accT)
       | none => return .none'
   | "deduce_with" => go do
       let w ← rdOpinion i0
       let c ← rdCond i0 i1
       let ay ← rdTab i1
       let r := deduceWith w c (fun _ => ay)
-      return .ok r.1.flat ([r.2] ++ (if variant.contains "shared" then [true] else []))
+      return .ok r.1.flat ([r.2] ++ (if variant.contains "shared" then [true] else []) ++ accT)
   | "deduce2" => go do
       let n := i0 * i1
       let w ← rdOpinion n
       let c ← rdCond n i2
       let ay ← rdTab i2
       let r := deduceWith w c (fun _ => ay)
-      return .ok r.1.flat ([r.2] ++ (if variant.contains "shared" then [true] else []))
+      return .ok r.1.flat ([r.2] ++ (if variant.contains "shared" then [true] else []) ++ accT)
   | "inverse" => go do
       let c ← rdCond i0 i1
       let ax ← rdTab i0
       let ay ← rdTab i1
-      return .ok (CondTab.flat (inverse c ax ay))
+      -- `acc`: every inverted conditional is accepted by `Simplex::try_new` (expected: always)
+      return .ok (CondTab.flat (inverse c ax ay)) accT
   | "abduce" => go do
       let s ← rdSimplex i1
       let _aobs ← rdTab (α := α) i1
       let c ← rdCond i0 i1
       let ax ← rdTab i0
       match abduce s c ax with
-      | some r => return .ok r.flat
+      | some r => return .ok r.flat accT
       | none => return .none'
   | "abduce_with" => go do
       let s ← rdSimplex i1
@@ -171,7 +176,7 @@ def runOp (op : String) (variant : List String) (ints : List Nat) (xs : Array α
       let c ← rdCond i0 i1
       let ax ← rdTab i0
       let ay ← rdTab i1
-      return .ok (abduceWith s c ax ay).flat
+      return .ok (abduceWith s c ax ay).flat accT
   | "prod2" => go do
       let w0 ← rdOpinion i0
       let w1 ← rdOpinion i1
@@ -196,7 +201,8 @@ def runOp (op : String) (variant : List String) (ints : List Nat) (xs : Array α
       let ax2 ← rdTab i1
       let ay ← rdTab i2
       match mergeCond2 (variant.getD 0 "" == "M" || variant.getD 0 "" == "A") c1 c2 ax1 ax2 ay with
-      | .ok t => return .ok (CondTab.flat t)
+      -- `acc`: every cell of the merged table is accepted by `Simplex::try_new` (expected: always)
+      | .ok t => return .ok (CondTab.flat t) accT
       | .error l => return { cls := "panic", label := l.toString }
   | "bproj" => go do
       let w ← rdBOp
